@@ -39,6 +39,7 @@ inductive Op where
   | putc (n seed : Nat)           -- n times `out().put(c)`
   | lit (bs : Bytes)              -- `out().write` of literal bytes
   | out                           -- `response().out()`
+  | finalize                      -- `response().finalize()` (documented for asynchronous applications before `async_complete_response`)
   | flush                         -- `out().flush()` / `async_flush_output`
   | setbuf (n : Int)              -- `response().setbuf(n)`
   | fullBuf (v : Bool)            -- `full_asynchronous_buffering(v)`
@@ -80,6 +81,7 @@ def parseOp (s : String) : Option Op :=
     | 'x' => (parseHex a).map .lit
     | 'f' => if a.isEmpty then some .flush else none
     | 'o' => if a.isEmpty then some .out else none
+    | 'Z' => if a.isEmpty then some .finalize else none
     | 'b' => if a == "-" then some (.setbuf (-1)) else a.toNat?.map fun n => .setbuf n
     | 'F' => a.toNat?.map fun n => .fullBuf (n != 0)
     | 'L' => a.toNat?.map .contentLength
